@@ -69,8 +69,8 @@ func runWorker(r *ev.Run, col *sqlgen.Collector) {
 			sort.Strings(corpus)
 			col.Info("idents_statements_added_to_splice_and_subst_corpus", len(extra))
 		}},
-		{"observers", 3, func(exp func() bool) { runObservers(exp, r.Thorough(), col) }},
-		{"grammar", 10, func(exp func() bool) { runGrammar(r, exp, col) }},
+		{"observers", 5, func(exp func() bool) { runObservers(exp, r.Thorough(), col) }},
+		{"grammar", 9, func(exp func() bool) { runGrammar(r, exp, col) }},
 		{"splice", 6, func(exp func() bool) { runSplice(r, exp, col, corpus) }},
 		{"subst", 3, func(exp func() bool) { runSubst(r, exp, col, corpus) }},
 	}
@@ -120,6 +120,12 @@ func replay(col *sqlgen.Collector, c caseT) {
 		fmt.Printf("replay subst: %s\n", out)
 	case "observers":
 		observersReplay(col, c)
+	case "idents":
+		out, t := roundTrip(col, c)
+		if t != nil && out == oOK {
+			out = identBytesCheck(col, c, t)
+		}
+		fmt.Printf("replay idents: %q outcome %s\n", c.SQL, out)
 	default:
 		out, t := roundTrip(col, c)
 		if t != nil {
